@@ -50,7 +50,7 @@ CLAIMED = {
  "C06": ("Theorems for every event sequence (any number of tasks, any interleaving of attempts, exits, foreign unlocks and clock advances, per-acquisition ttl): "
          "two tasks inside at once implies one of them has overstayed its own ttl (3-part invariant by induction); unlock releases iff the live entry holds exactly the "
          "presented token; leaving removes the entry carrying the task's token; an attempt succeeds whenever there is no live entry; is_locked reads liveness and changes nothing, and "
-         "is_locked(wait, step) answers the liveness ceil(wait/step) steps later for every wait and step > 0 (induction over the polling loop, total with enough fuel). Real cache.lock / @locked / "
+         "is_locked(wait, step) answers the liveness ceil(wait/step) steps later for every wait and step > 0 (induction over the polling loop, total with enough fuel, equal to the conjunction of its Probe events). Real cache.lock / @locked / "
          "backend.lock tasks run under a deterministic scheduler (gates in front of set_lock / unlock / ping, virtual clock, one cancellation) while a further task polls is_locked / is_locked(wait, step); the observed command "
          "trace is replayed on the model and checked against an ideal-lock oracle.",
          "asyncio scheduling/cancellation and the context manager's finally are the interpreter's (partial: theorem about the model + replayed traces); uuid4 tokens distinct.",
